@@ -7,6 +7,7 @@ import (
 
 	"github.com/blevesearch/bleve/v2"
 	"github.com/blevesearch/bleve/v2/index/scorch"
+	"github.com/blevesearch/bleve/v2/search/query"
 
 	"verif/harness/internal/core"
 	"verif/harness/internal/tlaval"
@@ -36,6 +37,9 @@ type circleCase struct {
 	MustNot []string
 }
 
+// taggedDoc: a third of the documents carry tag:x (a sparse clause for conjunctions)
+func taggedDoc(d cdoc) bool { return ((d.Lon/5)+(d.Lat/5))%3 == 0 }
+
 func openCircleIndex(eng string, docs []cdoc) (bleve.Index, error) {
 	m := bleve.NewIndexMapping()
 	dm := bleve.NewDocumentMapping()
@@ -58,7 +62,11 @@ func openCircleIndex(eng string, docs []cdoc) (bleve.Index, error) {
 	}
 	b := idx.NewBatch()
 	for _, d := range docs {
-		if err := b.Index(d.id(), map[string]interface{}{"loc": map[string]interface{}{"lon": float64(d.Lon) / 1000, "lat": float64(d.Lat) / 1000}}); err != nil {
+		doc := map[string]interface{}{"loc": map[string]interface{}{"lon": float64(d.Lon) / 1000, "lat": float64(d.Lat) / 1000}}
+		if taggedDoc(d) {
+			doc["tag"] = "x"
+		}
+		if err := b.Index(d.id(), doc); err != nil {
 			return nil, err
 		}
 	}
@@ -160,5 +168,118 @@ func circles(c *core.Ctx) error {
 	}
 	c.AddExtra("circle_cases", int64(len(cases)))
 	c.AddExtra("circle_cases_reaching_over_the_date_line_or_pole", int64(crossing))
+	return nil
+}
+
+// Boxes at their edges (spec/GeoBoxEdge.tla): documents a few millidegrees inside and
+// outside every edge of boxes, two of which cross the date line; each box is asked for
+// alone and as one clause of a conjunction (so that the filtering searcher is advanced).
+func boxEdges(c *core.Ctx) error {
+	type bcase struct {
+		L, R, B, T    int
+		Must, MustNot []string
+	}
+	var cases []bcase
+	docSet := map[string]cdoc{}
+	docOf := func(v any) cdoc {
+		return cdoc{Fam: "edge", Lon: tlaval.Int(tlaval.Field(v, "lon")), Lat: tlaval.Int(tlaval.Field(v, "lat"))}
+	}
+	res, err := tlc.DumpStates(c.TLCOpts("GeoBoxEdge", "GeoBoxEdge_mc.cfg", core.Workers(2), core.Timeout(10*time.Minute)), func(st tlaval.State) error {
+		bx := st["box"]
+		cs := bcase{L: tlaval.Int(tlaval.Field(bx, "l")), R: tlaval.Int(tlaval.Field(bx, "r")), B: tlaval.Int(tlaval.Field(bx, "b")), T: tlaval.Int(tlaval.Field(bx, "t"))}
+		for _, d := range tlaval.List(st["must"]) {
+			cs.Must = append(cs.Must, docOf(d).id())
+			docSet[docOf(d).id()] = docOf(d)
+		}
+		for _, d := range tlaval.List(st["mustnot"]) {
+			cs.MustNot = append(cs.MustNot, docOf(d).id())
+			docSet[docOf(d).id()] = docOf(d)
+		}
+		cases = append(cases, cs)
+		return nil
+	})
+	c.Account("GeoBoxEdge", "GeoBoxEdge_mc.cfg", "exhaustive+dump", res)
+	if err != nil {
+		return err
+	}
+	if res == nil || !res.OK {
+		c.Inconclusive("GeoBoxEdge: the model's own invariants do not hold or TLC failed")
+		return nil
+	}
+	var docs []cdoc
+	for _, d := range docSet {
+		docs = append(docs, d)
+	}
+	sort.Slice(docs, func(i, j int) bool { return docs[i].id() < docs[j].id() })
+	for _, eng := range engines {
+		idx, err := openCircleIndex(eng, docs)
+		if err != nil {
+			return err
+		}
+		for _, cs := range cases {
+			for _, mode := range []int{0, 1, 2} {
+				conj := mode > 0
+				bq := bleve.NewGeoBoundingBoxQuery(float64(cs.L)/1000, float64(cs.T)/1000, float64(cs.R)/1000, float64(cs.B)/1000)
+				bq.SetField("loc")
+				var q query.Query = bq
+				must, mustnot := cs.Must, cs.MustNot
+				if mode == 1 {
+					q = bleve.NewConjunctionQuery(bleve.NewMatchAllQuery(), bq)
+				}
+				if mode == 2 {
+					// a sparse second clause: the conjunction leads with it and ADVANCES the box searcher
+					tq := bleve.NewTermQuery("x")
+					tq.SetField("tag")
+					q = bleve.NewConjunctionQuery(tq, bq)
+					must, mustnot = nil, nil
+					for _, id := range cs.Must {
+						if taggedDoc(docSet[id]) {
+							must = append(must, id)
+						} else {
+							mustnot = append(mustnot, id)
+						}
+					}
+					mustnot = append(mustnot, cs.MustNot...)
+				}
+				sr, err := idx.Search(bleve.NewSearchRequestOptions(q, len(docs)+5, 0, false))
+				c.Eval(1)
+				if err != nil {
+					c.Violation("c18/box-edge/error:"+eng, fmt.Sprintf("%s: box query %+v failed: %v", eng, cs, err), map[string]any{"kind": "box-edge", "eng": eng})
+					continue
+				}
+				got := map[string]bool{}
+				for _, h := range sr.Hits {
+					got[h.ID] = true
+				}
+				var missed, extra []string
+				for _, id := range must {
+					if !got[id] {
+						missed = append(missed, id)
+					}
+				}
+				for _, id := range mustnot {
+					if got[id] {
+						extra = append(extra, id)
+					}
+				}
+				where := "plain"
+				if cs.L > cs.R {
+					where = "dateline"
+				}
+				how := []string{"alone", "under-conjunction", "advanced-by-a-sparse-clause"}[mode]
+				if len(missed) > 0 {
+					c.Violation(fmt.Sprintf("c18/box-edge/missed:%s:%s:%s", where, how, eng), fmt.Sprintf("%s: box lon [%.3f, %.3f] lat [%.3f, %.3f] (%s) misses %v, which lie at least 5 millidegrees inside (spec/GeoBoxEdge.tla)", eng, float64(cs.L)/1000, float64(cs.R)/1000, float64(cs.B)/1000, float64(cs.T)/1000, how, head(missed, 6)),
+						map[string]any{"kind": "box-edge", "eng": eng, "box": []int{cs.L, cs.R, cs.B, cs.T}, "conj": conj, "missed": missed})
+				}
+				if len(extra) > 0 {
+					c.Violation(fmt.Sprintf("c18/box-edge/extra:%s:%s:%s", where, how, eng), fmt.Sprintf("%s: box lon [%.3f, %.3f] lat [%.3f, %.3f] (%s) returns %v, which lie at least 5 millidegrees outside (spec/GeoBoxEdge.tla)", eng, float64(cs.L)/1000, float64(cs.R)/1000, float64(cs.B)/1000, float64(cs.T)/1000, how, head(extra, 6)),
+						map[string]any{"kind": "box-edge", "eng": eng, "box": []int{cs.L, cs.R, cs.B, cs.T}, "conj": conj, "extra": extra})
+				}
+				c.Distinct(fmt.Sprintf("boxedge|%d|%d|%v", cs.L, cs.B, mode))
+			}
+		}
+		idx.Close()
+	}
+	c.AddExtra("box_edge_documents", int64(len(docs)))
 	return nil
 }
